@@ -239,14 +239,14 @@ def gen_cases(rec, rng, tier):
         if rec.shard % 2 == 0:
             yield {'cls': cls, 'ref': RG, 'n': n}
         yield {'cls': cls + '_renamed', 'ref': cfgg.random_var_renaming(rng, RG), 'n': n, 'hint': rng.choice('SAXQ'), 'start_variable': rng.choice('TSAZ')}
-    for _ in range(40 if thorough else 12):
+    for _ in range(160 if thorough else 12):
         RG = cfgg.unit_cycle_grammar(rng)
         yield {'cls': 'unit_cycles', 'ref': RG, 'n': 3}
         yield {'cls': 'unit_cycles_renamed', 'ref': cfgg.random_var_renaming(rng, RG), 'n': 3}
     for nv in ((23, 25, 26, 27, 30) if thorough else (24, 26, 28)):
         if rec.shard % 4 == (nv % 4):
             yield {'cls': 'many_variables_%d' % nv, 'ref': cfgg.many_variables(rng, nv), 'n': 4}
-    for _ in range(80 if thorough else 25):
+    for _ in range(300 if thorough else 25):
         nv = rng.randint(1, 6)
         RG = cfgg.random_grammar(rng, nv, rng.randint(1, 10), max_rhs=rng.choice([2, 3, 6]), nt=rng.randint(1, 3),
                                  p_eps=rng.choice([0.0, 0.15, 0.3]), p_unit=rng.choice([0.0, 0.2, 0.4]))
